@@ -3,7 +3,7 @@
    are, for ALL operands, the hand-written model of QTools/Ops.v that the C16 / C17 / C18 theorems are about.
    Compiled on every run after the generated file; a change of a type rule in the source breaks one of these. *)
 From Coq Require Import ZArith List Bool Lia.
-From QV Require Import Base.ZQ Base.FL QTools.Types QTools.Ops.
+From QV Require Import Base.ZQ Base.FL QTools.Types QTools.Ops Quant.Fixed QTools.LayerMap.
 From QVGen Require Import QToolsOps.
 Open Scope Z_scope. Import ListNotations.
 
@@ -52,4 +52,11 @@ Proof. intros m1 m2 H1 H2.
   assert (m2 = 0 \/ m2 = 1 \/ m2 = 2 \/ m2 = 3 \/ m2 = 4 \/ m2 = 5) as C2 by lia.
   destruct C1 as [->|[->|[->|[->|[->| ->]]]]]; destruct C2 as [->|[->|[->|[->|[->| ->]]]]]; reflexivity. Qed.
 
+Lemma link_make_accumulator kops ub m : gen_make_accumulator kops ub m = make_accumulator kops ub m.
+Proof. unfold gen_make_accumulator, make_accumulator.
+  rewrite link_FloatingPointAccumulator, link_Po2Accumulator, link_FixedPointAccumulator. reflexivity. Qed.
+Lemma link_conv_QuantizedBits b i kn sym : gen_conv_QuantizedBits b i kn = qt_of_qbits (QB b i kn sym).
+Proof. reflexivity. Qed.
+Lemma link_conv_QuantizedRelu b i lk : gen_conv_QuantizedRelu b i lk = qt_of_qrelu b i lk.
+Proof. unfold gen_conv_QuantizedRelu, qt_of_qrelu. destruct lk; destruct ((b =? 1) && (i =? 1)); reflexivity. Qed.
 Lemma link_translation_ok : translation_ok = true. Proof. reflexivity. Qed.
